@@ -52,15 +52,18 @@ type interpreter struct {
 	maxSteps int64
 
 	// side tables for modelled std types, keyed by object address
-	onces    map[*value]*onceModel
-	mutexes  map[*value]*mutexModel
-	wgs      map[*value]*wgModel
-	pools    map[*value]*poolModel
-	ctxs     []*ctxModel
-	ro       []roRegion
-	counters map[string]int
-	nextID   int
-	fnSeen   map[*ssa.Function]bool
+	onces     map[*value]*onceModel
+	mutexes   map[*value]*mutexModel
+	wgs       map[*value]*wgModel
+	pools     map[*value]*poolModel
+	ctxs      []*ctxModel
+	ro        []roRegion
+	counters  map[string]int
+	nextID    int
+	fnSeen    map[*ssa.Function]bool
+	isolate   bool
+	cellOwner map[*value]int
+	mapOwner  map[*omap]int
 }
 
 type deferred struct {
@@ -243,6 +246,11 @@ func visitInstr(fr *frame, instr ssa.Instruction) continuation {
 		// no-op
 
 	case *ssa.UnOp:
+		if i.isolate && instr.Op == token.MUL {
+			if p, ok := fr.get(instr.X).(*value); ok && p != nil {
+				i.noteRead(fr, p, instr)
+			}
+		}
 		fr.env[instr] = unop(fr, instr, fr.get(instr.X))
 
 	case *ssa.BinOp:
@@ -314,6 +322,9 @@ func visitInstr(fr *frame, instr ssa.Instruction) continuation {
 		}
 		if addr == nil {
 			panic(targetPanicString("runtime error: invalid memory address or nil pointer dereference"))
+		}
+		if i.isolate {
+			i.noteWrite(fr, addr, instr)
 		}
 		store(mustDeref(instr.Addr.Type()), addr, fr.get(instr.Val))
 
@@ -438,6 +449,9 @@ func visitInstr(fr *frame, instr ssa.Instruction) continuation {
 		if s, ok := x.(string); ok {
 			fr.env[instr] = s[fr.idx(fr.get(instr.Index), len(s))]
 		} else {
+			if m, ok := x.(*omap); ok && i.isolate && m != nil {
+				i.noteMap(fr, m, false, instr)
+			}
 			fr.env[instr] = lookup(instr, x, fr.get(instr.Index))
 		}
 
@@ -447,6 +461,9 @@ func visitInstr(fr *frame, instr ssa.Instruction) continuation {
 		v := fr.get(instr.Value)
 		switch m := m.(type) {
 		case *omap:
+			if i.isolate {
+				i.noteMap(fr, m, true, instr)
+			}
 			m.insert(key, v)
 		default:
 			panic(fmt.Sprintf("illegal map type: %T", m))
